@@ -8,7 +8,7 @@ from .. import core
 from ..core import SKIP
 
 ID = "C09"
-RULE = ("(v2: pileup leaves, t[mask], float trees on the Lean model) exhaustive: every sorted non-overlapping bedGraph of <= 3 records on a contig of size 1..S (quick S<=5, thorough S<=7; "
+RULE = ("(v3: genomes with ignored '_' contigs of non-zero size; v2: pileup leaves, t[mask], float trees on the Lean model) exhaustive: every sorted non-overlapping bedGraph of <= 3 records on a contig of size 1..S (quick S<=5, thorough S<=7; "
         "with/without gaps, starting at 0 or later, ending at or before the size, empty), sizes given and None, int and float "
         "values, through GenomicRunLengthArray.from_bedgraph, from_intervals(values=array), Genome.get_track and "
         "Geometry.get_track on genomes of 1..4 chromosomes (every distribution of <= 3 records over chromosomes of size <= 4); "
@@ -237,7 +237,26 @@ def cases(tier, rng):
         tree = _tree(rng, rng.randrange(1, D + 1), want, nI, nB)
         red = rng.choice([None, None, "sum", [-3, 0, 1, 2, 5]]) if want == "int" else rng.choice([None, None, "sum"])
         idx = _tree(rng, rng.randrange(0, 3), "bool", nI, nB) if rng.random() < 0.3 else None   # t[mask]
-        yield {"op": "expr", "sizes": sizes, "leaves": leaves, "tree": tree, "red": red, "idx": idx}
+        case = {"op": "expr", "sizes": sizes, "leaves": leaves, "tree": tree, "red": red, "idx": idx}
+        if rng.random() < 0.4:    # ignored ('_') contigs of non-zero size anywhere in the chrom.sizes listing
+            case["ignored"] = [[rng.randrange(len(sizes) + 1), rng.choice([1, 3, 7])] for _ in range(rng.choice([1, 1, 2]))]
+            case["via_file"] = rng.random() < 0.3
+        yield case
+        # interval-built arrays on a genome with an ignored contig: reductions that see the whole array
+        ign = [[rng.randrange(len(sizes) + 1), rng.choice([1, 2, 5])]]
+        lv = [{"kind": "pileup", "recs": _rand_ivs(rng, sizes)}, {"kind": "int", "recs": _rand_track(rng, sizes, "int")},
+              {"kind": "mask", "recs": _rand_ivs(rng, sizes)}]
+        P, T, M = ({"t": "leaf", "i": i} for i in range(3))
+        tr, rd = rng.choice([
+            ({"t": "un", "f": "not", "a": M}, "sum"),                                   # (~mask).sum()
+            ({"t": "scr", "f": "eq", "a": P, "k": 0}, "sum"),                           # (pileup == 0).sum()
+            (P, [0, 1, 2, 5]),                                                          # np.histogram(pileup, bins)
+            ({"t": "scl", "f": "sub", "a": P, "k": 1}, "sum"),                          # (1 - pileup).sum()
+            ({"t": "bin", "f": "and", "a": M, "b": {"t": "scr", "f": "gt", "a": T, "k": 2}}, "sum"),   # mask & (track > 2)
+            ({"t": "bin", "f": "add", "a": P, "b": T}, "sum"),
+            (M, "sum")])
+        yield {"op": "expr", "sizes": sizes, "leaves": lv, "tree": tr, "red": rd, "idx": None, "ignored": ign,
+               "via_file": rng.random() < 0.3}
         # float trees (dense NumPy only)
         leaves = [{"kind": "float", "recs": _rand_track(rng, sizes, "float") or [[0, 0, 1, FLOATS[0]]]} for _ in range(2)] + \
                  [{"kind": "int", "recs": _rand_track(rng, sizes, "int")}]
@@ -270,7 +289,7 @@ def nontrivial(c):
                             or any(r[i][1] != r[i + 1][0] for i in range(len(r) - 1)))
     if op in ("track", "geo_track", "track_str"):
         return len(c["sizes"]) >= 2 or len(c["recs"]) >= 2
-    return _depth(c["tree"]) >= 2
+    return _depth(c["tree"]) >= 2 or bool(c.get("ignored"))
 
 
 # ------------------------------------------------------------------ implementation
@@ -326,6 +345,31 @@ def _sizes_dict(sizes):
     return {"chr%d" % (i + 1): s for i, s in enumerate(sizes)}
 
 
+_TMP = []
+
+
+def _genome(sizes, ignored=None, via_file=False):
+    """genome with the given included chromosomes and, optionally, ignored contigs ('_' in the name, non-zero size)
+    placed at the given positions of the chrom.sizes listing"""
+    m = _mods()
+    if not ignored:
+        return m["bnp"].Genome.from_dict(_sizes_dict(sizes))
+    from bionumpy.genomic_data.genome_context import ignore_underscores
+    items = list(_sizes_dict(sizes).items())
+    for k, (pos, sz) in enumerate(sorted(ignored)):
+        items.insert(min(pos + k, len(items)), ("chrUn_%d" % k, sz))
+    if via_file:
+        import atexit, os, shutil, tempfile
+        if not _TMP:
+            _TMP.append(tempfile.mkdtemp(prefix="c09-"))
+            atexit.register(shutil.rmtree, _TMP[0], True)
+        fn = os.path.join(_TMP[0], "g%d.chrom.sizes" % os.getpid())
+        with open(fn, "w") as fh:
+            fh.write("".join("%s\t%d\n" % kv for kv in items))
+        return m["bnp"].Genome.from_file(fn)
+    return m["bnp"].Genome.from_dict(dict(items), filter_function=ignore_underscores)
+
+
 def _leaf_impl(genome, sizes, leaf):
     m = _mods()
     if leaf["kind"] in ("mask", "pileup"):
@@ -360,12 +404,14 @@ def impl(c):
             return {"str": str(t), "repr": repr(t)}
         if op in ("expr", "expr_f"):
             sizes = c["sizes"]
-            genome = m["bnp"].Genome.from_dict(_sizes_dict(sizes))
+            genome = _genome(sizes, c.get("ignored"), c.get("via_file", False))
             leaves = [_leaf_impl(genome, sizes, l) for l in c["leaves"]]
             with np.errstate(all="ignore"):
                 g = _ev(c["tree"], leaves)
                 out = _observe(g, sizes)
                 out["bool"] = bool(g.dtype == bool)
+                if op == "expr":
+                    out["gsize"] = int(genome.size)
                 if c.get("idx") is not None:
                     sel = g[_ev(c["idx"], leaves)]
                     out["idx"] = _out(None, sel.to_array() if hasattr(sel, "to_array") else np.asarray(sel))
@@ -454,6 +500,8 @@ def oracle(c):
             g = _ev(c["tree"], leaves)
             offs = np.insert(np.cumsum(sizes), 0, 0)
             out = {"dict": [_out(None, g[offs[i]:offs[i + 1]]) for i in range(len(sizes))], "bool": bool(g.dtype == bool)}
+            if op == "expr":
+                out["gsize"] = int(sum(sizes))
             if c.get("idx") is not None:
                 out["idx"] = _out(None, g[_ev(c["idx"], leaves)])
             red = c.get("red")
@@ -489,7 +537,7 @@ def agree(c, got, exp):
         return core.canon(got) == core.canon(exp)
     if got["dict"] != exp["dict"]:
         return False
-    for k in ("bool", "sum", "hist", "str", "idx"):
+    for k in ("bool", "sum", "hist", "str", "idx", "gsize"):
         if k in exp and got.get(k) != exp[k]:
             if k == "sum" and op == "expr_f" and not exp.get("bool"):
                 # a float sum is not an exact copy: sum(len*value) vs NumPy's pairwise sum differ by rounding only
@@ -523,7 +571,7 @@ def finding_key(c, got, exp):
         last = c["recs"] and c["recs"][-1][2] < c["sizes"][c["recs"][-1][0]] or (c["recs"] and c["recs"][-1][0] < len(c["sizes"]) - 1)
         return f"{op}:wrong-dense-array" + ("-after-last-record" if last else "")
     if isinstance(got, dict) and "dict" in got and got.get("dict") == exp.get("dict"):
-        for k in ("sum", "hist", "bool", "str", "idx"):
+        for k in ("sum", "hist", "bool", "str", "idx", "gsize"):
             if k in exp and got.get(k) != exp[k]:
                 return f"{op}:wrong-{k}"
         return f"{op}:records-do-not-expand-to-the-array"
